@@ -7,8 +7,8 @@
    done/managed and two ghost fields) and names metadata strings by integers (0 = "").  [st_of enc x] projects
    the record; [enc] is any injective naming of strings with [enc 0 = ""] ([meta_enc_ok]); [menc] is one such
    naming, so the hypotheses are satisfiable.  All lemmas are pointwise, for all arguments. *)
-From Coq Require Import List ZArith Bool String Ascii.
-From SV Require Import Gen.GoInt Gen.DecTypes Gen.DecC06 C06.Model.
+From Coq Require Import List ZArith Bool String Ascii Lia.
+From SV Require Import Gen.GoInt Gen.DecTypes Gen.DecTypes2 Gen.DecC06 C06.Model C06.Spec C06.Proofs.
 Import ListNotations.
 Open Scope Z_scope.
 
@@ -190,4 +190,212 @@ Example tie_verdict_example :
   fst (DecC06.commit_verdict true 3 true 7 (menc 3)) = [OM_handle_error (EK 3); OM_release_coordinator] /\
   resp_errs [(1, (7, 3))] [(1, 3)] [(1, x)] = [EvErr 1 3] /\
   resp_releases [(1, (7, 3))] [(1, 3)] [(1, x)] = true.
+Proof. repeat split. Qed.
+
+(* ==== second wave: the final-flush loop of Close and OffsetCommitRequest.AddBlock ================== *)
+
+(* ---- Close: attempts --------------------------------------------------------------------------- *)
+(* The generated slice runs om.flushToBroker() (action OC_flush) and reads om.releasePOMs(false) from a script of
+   remaining-POM counts.  In the model one attempt is [attempt r] = Construct; Respond r; Release, the loop counter is
+   [closing], the loop test sits in do_release.  [close_script] is the script the model itself produces along a run
+   (remaining managed partitions after releasePOMs(false) of each attempt), [close_flush_count] the number of attempts the
+   model makes (Construct reached with closed = false). *)
+Definition before_release (c : cfg) (r : reply) (s : state) : state := step c (step c s Construct) (Respond r).
+Definition rem_of (c : cfg) (r : reply) (s : state) : Z :=
+  Z.of_nat (remaining (release false (poms (before_release c r s)))).
+
+Fixpoint close_script (c : cfg) (s : state) (rs : list reply) : list Z :=
+  match rs with
+  | [] => []
+  | r :: rest => rem_of c r s :: close_script c (run c (attempt r) s) rest
+  end.
+
+Fixpoint close_flush_count (c : cfg) (s : state) (rs : list reply) : nat :=
+  match rs with
+  | [] => O
+  | r :: rest => if closed s then O else S (close_flush_count c (run c (attempt r) s) rest)
+  end.
+
+Lemma close_flush_count_closed c rs : forall s, closed s = true -> close_flush_count c s rs = O.
+Proof. destruct rs; intros s H; cbn; [reflexivity | now rewrite H]. Qed.
+
+(* one attempt, exactly: Close ends iff nothing remains or this was the last permitted attempt *)
+Lemma attempt_exact c r s n :
+  pc s = Idle -> closing s = Some n -> closed s = false ->
+  let s' := run c (attempt r) s in
+  if (rem_of c r s =? 0) || (n <=? 1)%nat then closed s' = true
+  else pc s' = Idle /\ closed s' = false /\ closing s' = Some (pred n).
+Proof.
+  intros Hpc Hcg Hcl. unfold rem_of, before_release. cbn [attempt run fold_left].
+  assert (H1 : closing (step c s Construct) = Some n /\ closed (step c s Construct) = false /\
+               (pc (step c s Construct) = Flushed \/ exists req, pc (step c s Construct) = Window req)).
+  { cbn [step]. rewrite Hcl, Hpc. unfold do_construct.
+    destruct (blocks_of (poms s)); cbn; repeat split; auto. right. eauto. }
+  remember (step c s Construct) as s1 eqn:E1. clear E1. destruct H1 as [Hcg1 [Hcl1 Hpc1]].
+  assert (H2 : closing (step c s1 (Respond r)) = Some n /\ closed (step c s1 (Respond r)) = false /\
+               pc (step c s1 (Respond r)) = Flushed).
+  { cbn [step]. rewrite Hcl1. unfold do_respond.
+    destruct Hpc1 as [E|[req E]]; rewrite E; [auto|].
+    destruct (lookup_ok_fields s1) as [_ [_ [_ [A [B _]]]]].
+    destruct r as [applied| |codes]; [|destruct (cached s1)|]; unfold conn_failure; cbn; rewrite ?A, ?B; auto. }
+  remember (step c s1 (Respond r)) as s2 eqn:E2. clear E2. destruct H2 as [Hcg2 [Hcl2 Hpc2]].
+  cbn [step]. rewrite Hcl2. unfold do_release. rewrite Hpc2, Hcg2.
+  destruct (remaining (release false (poms s2))) as [|m]; [reflexivity|].
+  replace (Z.of_nat (S m) =? 0) with false by (symmetry; apply Z.eqb_neq; lia). cbn [orb].
+  destruct n as [|[|k]]; cbn [Nat.leb pred]; [reflexivity | reflexivity|].
+  cbn. repeat split; auto.
+Qed.
+
+Lemma tie_close_loop c ac rm : forall rs s n a acts,
+  pc s = Idle -> closing s = Some (S n) -> closed s = false -> (S n <= List.length rs)%nat ->
+  DecC06.close_final_flush_loop1 (S n) a (close_script c s rs) ac rm acts =
+    (skipn (close_flush_count c s rs) (close_script c s rs),
+     acts ++ repeat OC_flush (close_flush_count c s rs), @ExFall unit).
+Proof.
+  induction rs as [|r rs IH]; intros s n a acts Hpc Hcg Hcl Hlen; [cbn in Hlen; lia|].
+  cbn [close_script close_flush_count DecC06.close_final_flush_loop1 pop]. rewrite Hcl.
+  pose proof (attempt_exact c r s (S n) Hpc Hcg Hcl) as Hx. cbv zeta in Hx.
+  destruct (rem_of c r s =? 0) eqn:Er; cbn [orb] in Hx.
+  - rewrite (close_flush_count_closed c rs _ Hx). reflexivity.
+  - destruct n as [|m]; cbn [Nat.leb pred] in Hx.
+    + rewrite (close_flush_count_closed c rs _ Hx). reflexivity.
+    + destruct Hx as [Hpc' [Hcl' Hcg']].
+      rewrite (IH _ m (a + 1) (acts ++ [OC_flush]) Hpc' Hcg' Hcl') by (cbn in Hlen; lia).
+      cbn [skipn repeat]. rewrite <- app_assoc. reflexivity.
+Qed.
+
+(* Close as a whole: the generated slice, fed with the remaining counts the model produces and the model's configuration,
+   makes exactly the attempts the model makes (and reads exactly that much of the script) *)
+Lemma tie_close_attempts : forall c s0 rs,
+  pc s0 = Idle -> closing s0 = None -> closed s0 = false -> (S (c_retry_max c) <= List.length rs)%nat ->
+  let s1 := step c s0 CloseBegin in
+  let k := close_flush_count c s1 rs in
+  DecC06.close_final_flush (close_script c s1 rs) (c_autocommit c) (Z.of_nat (c_retry_max c)) =
+    (skipn k (close_script c s1 rs), repeat OC_flush k, @ExFall unit) /\
+  (k <= S (c_retry_max c))%nat.
+Proof.
+  intros c s0 rs Hpc Hcg Hcl Hlen. cbv zeta. cbn [step]. rewrite Hcl. unfold do_close_begin. rewrite Hpc, Hcg.
+  unfold DecC06.close_final_flush. destruct (c_autocommit c).
+  - replace (Z.to_nat (Z.of_nat (c_retry_max c) - 0 + 1)) with (S (c_retry_max c)) by lia.
+    match goal with |- context [close_script c ?s rs] => set (s1 := s) end.
+    assert (E := tie_close_loop c true (Z.of_nat (c_retry_max c)) rs s1 (c_retry_max c) 0 []
+                   eq_refl eq_refl Hcl Hlen).
+    split; [exact E|].
+    (* the action list has at most fuel elements *)
+    clear E. assert (G : forall rs s n, pc s = Idle -> closing s = Some n -> closed s = false ->
+                          (close_flush_count c s rs <= n)%nat \/ n = O).
+    { clear. induction rs as [|r rs IH]; intros s n Hpc Hcg Hcl; [left; cbn; lia|].
+      cbn [close_flush_count]. rewrite Hcl.
+      pose proof (attempt_exact c r s n Hpc Hcg Hcl) as Hx. cbv zeta in Hx.
+      destruct ((rem_of c r s =? 0) || (n <=? 1)%nat) eqn:Eb.
+      - rewrite (close_flush_count_closed c rs _ Hx). destruct n; [right; reflexivity | left; lia].
+      - destruct Hx as [Hpc' [Hcl' Hcg']]. apply orb_false_elim in Eb. destruct Eb as [_ Eb].
+        apply Nat.leb_gt in Eb. destruct (IH _ _ Hpc' Hcg' Hcl') as [H|H]; [left; lia | lia]. }
+    destruct (G rs s1 (S (c_retry_max c)) eq_refl eq_refl Hcl) as [H|H]; [exact H | discriminate H].
+  - rewrite close_flush_count_closed by reflexivity. split; [reflexivity | lia].
+Qed.
+
+(* ---- AddBlock ---------------------------------------------------------------------------------- *)
+(* The generated definition lists the map writes of AddBlock under the two nil tests.  Read on a two-level map
+   (r.blocks : topic -> partition -> block, nil = None) they are a point update, and the request the model logs
+   ([req_event], keyed by the model's partition ids) is, partition for partition, what AddBlock calls for its blocks build. *)
+Definition blk : Type := (Z * Z * string)%type.                  (* offset, timestamp, metadata *)
+Definition tmap : Type := Z -> option blk.                        (* r.blocks[topic] *)
+Definition nreq : Type := option (string -> option tmap).         (* r.blocks; None = nil *)
+
+Definition topic_of (r : nreq) (t : string) : option tmap := match r with Some f => f t | None => None end.
+Definition nlookup (r : nreq) (t : string) (p : Z) : option blk :=
+  match topic_of r t with Some m => m p | None => None end.
+Definition is_none {A : Type} (o : option A) : bool := match o with None => true | Some _ => false end.
+
+Definition ab_apply (t : string) (p : Z) (r : nreq) (a : ab_action) : nreq :=
+  match a with
+  | AB_make_blocks => Some (fun _ => None)
+  | AB_make_topic => Some (fun t' => if String.eqb t' t then Some (fun _ => None) else topic_of r t')
+  | AB_set_block b =>
+      Some (fun t' => if String.eqb t' t
+                      then Some (fun p' => if p' =? p then Some b else nlookup r t p')
+                      else topic_of r t')
+  end.
+
+(* AddBlock on a request: the generated action list under the request's own nil tests, executed *)
+Definition add_block_on (r : nreq) (t : string) (p o ts : Z) (m : string) : nreq :=
+  fold_left (ab_apply t p) (DecC06.add_block t p o ts m (is_none r) (is_none (topic_of r t))) r.
+
+Lemma tie_add_block_update : forall r t p o ts m t' p',
+  nlookup (add_block_on r t p o ts m) t' p' =
+    if String.eqb t' t && (p' =? p) then Some (o, ts, m) else nlookup r t' p'.
+Proof.
+  intros r t p o ts m t' p'. unfold add_block_on, DecC06.add_block. cbv zeta.
+  destruct r as [f|]; cbn [is_none topic_of]; [destruct (f t) as [mp|] eqn:Ef|];
+    cbn [is_none app fold_left ab_apply]; unfold nlookup; cbn [topic_of];
+    (destruct (String.eqb t' t) eqn:Et; cbn [andb]; [|reflexivity]);
+    apply String.eqb_eq in Et; subst t'; rewrite ?String.eqb_refl, ?Ef;
+    destruct (p' =? p); reflexivity.
+Qed.
+
+(* the blocks of the request the model logs *)
+Definition event_blocks (c : cfg) (req : list (pid * (Z * Z))) : list (pid * (Z * Z * Z)) :=
+  map (fun b => (fst b, (fst (snd b), if c_retention c =? 0 then -1 else 0, snd (snd b)))) req.
+
+Lemma req_event_blocks c req : req_event c req = EvReq (req_version c) (c_retention c) (event_blocks c req).
+Proof. reflexivity. Qed.
+
+Definition enc_blk (enc : Z -> string) (b : Z * Z * Z) : blk := (fst (fst b), snd (fst b), enc (snd b)).
+
+(* constructRequest's AddBlock calls, one per block; [tp] names the model's partition ids as (topic, partition) *)
+Definition build (enc : Z -> string) (tp : pid -> string * Z) (l : list (pid * (Z * Z * Z))) (r0 : nreq) : nreq :=
+  fold_left (fun r b => add_block_on r (fst (tp (fst b))) (snd (tp (fst b)))
+                                     (fst (fst (snd b))) (snd (fst (snd b))) (enc (snd (snd b)))) l r0.
+
+Lemma get_app {A : Type} k (l1 l2 : list (pid * A)) :
+  get k (l1 ++ l2) = match get k l1 with Some v => Some v | None => get k l2 end.
+Proof. induction l1 as [|[k' v] l1 IH]; cbn; [reflexivity|]. destruct (k =? k'); [reflexivity | exact IH]. Qed.
+
+Lemma tp_eqb (tp : pid -> string * Z) : (forall a b, tp a = tp b -> a = b) ->
+  forall q p, String.eqb (fst (tp q)) (fst (tp p)) && (snd (tp q) =? snd (tp p)) = (q =? p).
+Proof.
+  intros Hinj q p. destruct (q =? p) eqn:E.
+  - apply Z.eqb_eq in E. subst. now rewrite String.eqb_refl, Z.eqb_refl.
+  - apply andb_false_iff. destruct (String.eqb (fst (tp q)) (fst (tp p))) eqn:E1; [right | now left].
+    apply Z.eqb_neq. intro E2. apply String.eqb_eq in E1. apply Z.eqb_neq in E. apply E, Hinj.
+    destruct (tp q), (tp p); cbn in *; now subst.
+Qed.
+
+Lemma build_lookup enc tp : (forall a b, tp a = tp b -> a = b) -> forall l r0 q,
+  nlookup (build enc tp l r0) (fst (tp q)) (snd (tp q)) =
+    match get q (rev l) with
+    | Some b => Some (enc_blk enc b)
+    | None => nlookup r0 (fst (tp q)) (snd (tp q))
+    end.
+Proof.
+  intros Hinj. induction l as [|[p [[o ts] m]] l IH]; intros r0 q; [reflexivity|].
+  change (build enc tp ((p, (o, ts, m)) :: l) r0)
+    with (build enc tp l (add_block_on r0 (fst (tp p)) (snd (tp p)) o ts (enc m))).
+  cbn [rev]. rewrite IH, get_app.
+  destruct (get q (rev l)); [reflexivity|].
+  rewrite tie_add_block_update, (tp_eqb tp Hinj). cbn [get]. destruct (q =? p); reflexivity.
+Qed.
+
+(* the request the model logs is what the generated AddBlock builds from an empty request, block by block
+   ([get q (rev l)]: the last call for a partition wins, as in a Go map; the model's requests have one block per partition) *)
+Lemma tie_add_block : forall enc (tp : pid -> string * Z), (forall a b, tp a = tp b -> a = b) ->
+  forall c req q,
+  req_event c req = EvReq (req_version c) (c_retention c) (event_blocks c req) /\
+  nlookup (build enc tp (event_blocks c req) None) (fst (tp q)) (snd (tp q)) =
+    option_map (enc_blk enc) (get q (rev (event_blocks c req))).
+Proof.
+  intros enc tp Hinj c req q. split; [reflexivity|].
+  rewrite (build_lookup enc tp Hinj). destruct (get q (rev (event_blocks c req))); reflexivity.
+Qed.
+
+Example tie_close_attempts_example :
+  DecC06.close_final_flush [2; 1; 0; 5] true 3 = ([5], [OC_flush; OC_flush; OC_flush], @ExFall unit) /\
+  DecC06.close_final_flush [2; 1; 1; 5] true 1 = ([1; 5], [OC_flush; OC_flush], @ExFall unit) /\
+  DecC06.close_final_flush [2; 1] false 3 = ([2; 1], [], @ExFall unit).
+Proof. repeat split. Qed.
+
+Example tie_add_block_example :
+  let r := add_block_on (add_block_on None "t" 0 5 (-1) "a") "t" 1 7 (-1) "b" in
+  nlookup r "t" 0 = Some (5, -1, "a"%string) /\ nlookup r "t" 1 = Some (7, -1, "b"%string) /\ nlookup r "u" 0 = None.
 Proof. repeat split. Qed.
